@@ -383,7 +383,7 @@ HEADER = ('From Coq Require Import QArith ZArith String List.\n'
 def correspondence(ctx):
     rng = random.Random(ctx.seed)
     quick = ctx.tier == 'quick'
-    groups = gen_groups(rng, 140 if quick else 2800, 110 if quick else 2200)
+    groups = gen_groups(rng, 140 if quick else 2000, 110 if quick else 1600)
     res = ctx.run_impl('kernels_impl.py', {'groups': [{'id': g['id'], 'expr': KERNELS[g['kname']][2], 'operands': g['operands']} for g in groups]})
     terms, descs = [], []
     for g, r in zip(groups, res['groups']):
@@ -402,7 +402,7 @@ def correspondence(ctx):
         key = f'{d["kernel"]}:{reason}' + (f':shape-{d["shape"]}' if reason.startswith('impl-raises') else '')
         ctx.violation(key, f'{d["kernel"]}: implementation differs from the Euclidean model ({why}) on {d}', {'case': d, 'reason': why})
     # the property's own statement, implementation against implementation (compared in Coq)
-    iterms, idescs, rterms = run_invariance(ctx, rng, 20 if quick else 300)
+    iterms, idescs, rterms = run_invariance(ctx, rng, 20 if quick else 200)
     ifails, ierrors = ctx.coq_eval_shards(HEADER, iterms, lambda k: 'Eval vm_compute in (report (map icheck cases)).\n', shard=400, prefix='inv')
     rfails, rerrors = ctx.coq_eval_shards(HEADER, [t for t, _ in rterms], lambda k: 'Eval vm_compute in (report (map in_range cases)).\n',
                                           shard=400, prefix='rng')
@@ -541,12 +541,39 @@ def py_angle(a, b):
 
 
 def replay(ctx, obj):
+    """re-run the recorded input on the implementation and print observed vs required behaviour"""
     import json
-    print(json.dumps(obj, indent=1, default=str))
     rp = obj.get('replay', {})
     case = rp.get('case') or rp
-    ops = case.get('operands') or case.get('operands_base')
-    if ops and case.get('kernel') in KERNELS:
-        print('re-run: PYTHONPATH=/repo/src /venv/bin/python -c "import scipp as sc; from scippneutron.conversion import beamline as bl; '
-              '... build the operands above with sc.vector(value, unit=unit) and call ' + case['kernel'] + '"')
+    print(json.dumps({k: obj.get(k) for k in ('property', 'key', 'what')}, indent=1, default=str))
+    sets = []
+    if case.get('operands') and case.get('kernel') in KERNELS:
+        sets.append((case['kernel'], case['operands'], case.get('operand_dims', {})))
+    for nm in ('operands_base', 'operands_variant'):
+        if case.get(nm):
+            sets.append(('two_theta' if 'b1' in case[nm] else 'pos>two_theta', case[nm], {}))
+    for kname, ops, dims in sets:
+        built = {}
+        for n, o in ops.items():
+            dim = (dims.get(n) or [None])[0]
+            if isinstance(o['value'], list):
+                built[n] = vop([o['value']], o['unit'], dim)
+            else:
+                v = o['value']
+                built[n] = {'values': [v if o['dtype'].startswith('int') else hexf(v)], 'unit': o['unit'], 'dtype': o['dtype'], 'dim': dim}
+        res = ctx.run_impl('kernels_impl.py', {'groups': [{'id': 0, 'expr': KERNELS[kname][2], 'operands': built}]})['groups'][0]
+        if 'error' in res:
+            print(f'{kname}: implementation raises {res["error"]}: {res.get("error_text")}  (operand dims {dims})')
+            print('required: the Euclidean value for every broadcastable combination of scalar / per-pixel operands')
+            continue
+        rr = res['result']
+        val = rr['values'][0]
+        print(f'{kname}: implementation returns {kcorr.fmt(val)} {rr["unit"]["name"]}')
+        V = {n: [fr(c) * fr(res['operands'][n]['unit']['mult']) for c in res['operands'][n]['values'][0]]
+             for n in ops if res['operands'][n]['dtype'] == 'vector3'}
+        sub = lambda a, b: [x - y for x, y in zip(a, b)]  # noqa: E731
+        if kname == 'two_theta':
+            print('required (Euclidean angle, exact rational dot/cross + atan2):', py_angle(V['b1'], V['b2']), 'rad +- 4e-15')
+        elif kname == 'pos>two_theta':
+            print('required:', py_angle(sub(V['sample'], V['source']), sub(V['position'], V['sample'])), 'rad +- 4e-15')
     return 0
